@@ -157,13 +157,25 @@ def r2_every_cycle(ctx, F):
     ROW = r"^miden_processor::decoder::Process::(start_\w+_block|end_\w+_block|respan)$|^miden_processor::decoder::Decoder::(execute_user_op|repeat)$"
     procfns = [f for f in F.fns.values() if f.id.startswith("miden_processor::Process::") and "closure" not in f.id]
     total = 0
+    def helper_cycle(f, t):
+        """a call to a function of the same file that appends exactly one decoder row and executes exactly one operation on
+        every successful path is a self-contained cycle (e.g. a private helper wrapping execute_user_op + execute_op)"""
+        g = F.fns.get(t["f"].get("fnx", t["f"].get("fn")))
+        if g is None or g.file != f.file or g.id == f.id:
+            return False
+        av = err_blocks(g) | panic_blocks(g)
+        return count_on_paths(g, summary_weight(F, g, ROW), avoid=av) == (1, 1) and \
+            count_on_paths(g, summary_weight(F, g, r"^miden_processor::operations::Process::execute_op$"), avoid=av) == (1, 1)
+
     for f in procfns:
-        rows = [(bi, c, t) for bi, c, t in f.calls() if re.search(ROW, c)]
+        rows = [(bi, c, t) for bi, c, t in f.calls() if re.search(ROW, c) or helper_cycle(f, t)]
         if not rows:
             continue
         ok_avoid = err_blocks(f) | panic_blocks(f)
         w_rows = call_weight(f, ROW)
-        w_exec = summary_weight(F, f, r"^miden_processor::operations::Process::execute_op$")
+        w_exec0 = summary_weight(F, f, r"^miden_processor::operations::Process::execute_op$")
+        row_blocks = {b for b, c2, t2 in rows}
+        w_exec = lambda b: 0 if b in row_blocks else w_exec0(b)
         for bi, c, t in rows:
             total += 1
             ctx.inst(key=f.id + c, nontrivial=True)
@@ -185,7 +197,9 @@ def r2_every_cycle(ctx, F):
     uo = F.fn(r"^miden_processor::decoder::Decoder::execute_user_op$")
     cs = sorted(F.callers(uo.id))
     ctx.inst(key="execute_user_op-callers", nontrivial=True)
-    if [short(c) for c in cs] != ["Process::execute_op_batch"]:
+    batch = F.fn(r"^miden_processor::Process::execute_op_batch$")
+    fam = {g.id for g in family(F, batch)}
+    if not cs or not set(cs) <= fam:
         ctx.violation("execute_user_op-callers", uo.loc(), "Decoder::execute_user_op must be called only from execute_op_batch: %s" % cs)
     # op handlers are called only from execute_op
     handlers = [f for f in F.fns.values() if re.search(r"^miden_processor::operations::\w+::Process::op_\w+$", f.id)]
